@@ -404,6 +404,7 @@ class UnitSpec:
         self.prelude = []
         self.entries = []   # (mode, module path, fn name or '*')
         self.expect_fail = []
+        self.includes = []
         self.opts = {}
 
 
@@ -430,6 +431,8 @@ def parse_units(path):
                     cur.entries.append((w[0], p))
             elif w[0] == 'opt':
                 cur.opts[w[1]] = ' '.join(w[2:])
+            elif w[0] == 'include':
+                cur.includes += w[1:]
             else:
                 raise SpecError('%s:%d: unknown unit clause %s' % (path, ln + 1, w[0]))
     return units
